@@ -476,6 +476,12 @@ func (fv *FV) specCall(env *SpecEnv, x SCall) Val {
 	case "mem":
 		s, v := arg(0), arg(1)
 		return Val{T: fmt.Sprintf("(%s %s %s)", fv.sess.fnMem(seqElemSort(s.S)), s.T, v.T), S: "Bool"}
+	case "maplen":
+		v := arg(0)
+		k, vv := mapSorts(v.S)
+		fn := "maplen_" + sanitize(k) + "_" + sanitize(vv)
+		fv.sess.decl("fn:"+fn, fmt.Sprintf("(declare-fun %s (%s) Int)", fn, v.S))
+		return Val{T: fmt.Sprintf("(%s %s)", fn, v.T), S: "Int", Go: types.Typ[types.Int]}
 	case "index":
 		sq, v := arg(0), arg(1)
 		return Val{T: fmt.Sprintf("(%s %s %s)", fv.sess.fnIndex(seqElemSort(sq.S)), sq.T, v.T), S: "Int", Go: types.Typ[types.Int]}
